@@ -74,7 +74,7 @@ pub fn check_program(run: &Run, st: &mut Stats, fam: &str, t: &T, inputs: &[RVal
             st.undecided += 1;
             continue;
         }
-        let imp = jq::run_trace(&f, jq::to_val(i), vec![], stream.iter().map(jq::to_val).collect(), max);
+        let imp = crate::ev::watched(|| format!("{fam}: {text} @ {i}"), true, || jq::run_trace(&f, jq::to_val(i), vec![], stream.iter().map(jq::to_val).collect(), max));
         let outs = m.trace.iter().filter(|e| matches!(e, jq::Ev::Out(_))).count();
         let err = matches!(m.trace.last(), Some(jq::Ev::Err(_)));
         if outs > 1 {
